@@ -235,6 +235,27 @@ def corpus_cases(tier):
     return out
 
 
+def long_runs(tier):
+    """
+    Deep histories of ONE reader: thousands of consecutive rejected items of one kind, then a
+    good frame (an error path that costs stack depth or memory per rejected item).
+    """
+    f = items.frames()
+    good = f["F19"]["data"]
+    hostile = {h["name"]: h["data"] for h in items.hostile()}
+    kinds = {
+        "badcrc": hostile["dmgcrc"], "badbody": hostile["Fbadbody"], "short1": hostile["Fshort1"],
+        "D3FF": hostile["D3FF"], "dollarX": hostile["dollarX"], "noise": b"\x00\xff",
+        "nmea": items.nmea("G"), "ubx": items.ubx(b"\x01\x02"), "F0": f["F0"]["data"],
+        "unknown-type": f["F2"]["data"],
+    }
+    out = []
+    for n in ((1200, 3000) if tier == "quick" else (1200, 3000, 20000)):
+        for name, unit in kinds.items():
+            out.append((f"{n}x{name}+F19", unit * n + good))
+    return out
+
+
 def stream_cases(tier):
     alpha = items.full_alphabet(tier)
     cfgs = [{"q": q, "v": v, "p": p, "h": h}
@@ -289,7 +310,7 @@ def _explore_stream(name, source, cfgs, bound, tier, st):
                 _stream_oracle(rec, cfg, out, name)
                 return out
 
-            b = bound if (cfg["h"] and cfg["v"] == 1) or tier == "thorough" else 0
+            b = bound if ((cfg["h"] and cfg["v"] == 1) or tier == "thorough") and bound else 0
             for choices, _devs, out in explore(body, bound=b):
                 st.add({"kind": "stream", "stream": name, "source": source, "cfg": cfg,
                         "choices": list(choices)}, out)
@@ -303,6 +324,10 @@ def run(tier, seed, t0):
     seqs, cfgs = stream_cases(tier)
     for ch in core.chunks(seqs, 25 if tier == "quick" else 60):
         work.append(("streams", (ch, cfgs, 1), tier))
+    longs = long_runs(tier)
+    lcfgs = [c for c in cfgs if c["h"]]
+    for one in longs:
+        work.append(("streams", ([one], lcfgs, 0), tier))
     core.check_deterministic(judge, {"kind": "hdr", "entry": "both", "data": b"\x3e\xd0\x00\x01"})
     core.check_deterministic(judge, {"kind": "stream", "source": items.concat(["F2", "dmgcrc", "F19"]),
                                      "cfg": {"q": 2, "v": 1, "p": True, "h": True}, "choices": [0, 0, 1]})
